@@ -201,7 +201,10 @@ Definition step (s : st) (e : ev) : option st :=
         match p with
         | LChk1 i =>
             if is_running (v i)
-            then (* wg.Add(1); go func(){ defer wg.Done(); ec.Add(ss.Wait()) } *)
+            then (* wg.Add(1); go func(){ defer wg.Done(); _ = ss.Start(ctx); ec.Add(ss.Wait()) }
+                    Start on a service that is not idle changes nothing and its error is dropped here; in the
+                    code it also blocks until the Start call that is starting the service has finished, which
+                    is what makes Wait block (Service contract, C10) - so the goroutine goes straight to Wait *)
                  Some (mk c q LTop (S w) gs (i :: gw) v e0 ex d a r res)
             else Some (mk c q (LChk2 i) w gs gw v e0 ex d a r res)
         | _ => None
